@@ -55,23 +55,32 @@ Proof. vm_compute. reflexivity. Qed.
 
 (* the hypotheses of the decision theorem are satisfiable: the compiled example has a
    definite verdict, hence (by validate_decides) a derivation of Valid *)
-Example ex_valid_derivation :
-  exists c, compile_root (ex_schema d7_url) = Ok c /\ Valid (c_env c) (c_root c) inst_ok.
+Definition ex_compiled : compiled :=
+  match compile_root (ex_schema d7_url) with
+  | Ok c => c
+  | _ => {| c_draft := D7; c_root := SFalse; c_env := [] |}
+  end.
+
+Example ex_compiles : compile_root (ex_schema d7_url) = Ok ex_compiled.
+Proof. vm_compute. reflexivity. Qed.
+
+Example ex_valid_derivation : Valid (c_env ex_compiled) (c_root ex_compiled) inst_ok.
 Proof.
-  destruct (compile_root (ex_schema d7_url)) as [c | | |] eqn:Ec; try (vm_compute in Ec; discriminate).
-  exists c. split; [reflexivity |].
-  apply (validate_decides (c_env c) default_fuel (c_root c) inst_ok true); [| reflexivity].
-  revert Ec. vm_compute. intros Ec. inversion Ec. subst c. vm_compute. reflexivity.
+  apply (validate_decides (c_env ex_compiled) default_fuel (c_root ex_compiled) inst_ok true); [| reflexivity].
+  vm_compute. reflexivity.
 Qed.
 
-Example ex_invalid_derivation :
-  exists c, compile_root (ex_schema d7_url) = Ok c /\ Invalid (c_env c) (c_root c) inst_bad_deep.
+Example ex_invalid_derivation : Invalid (c_env ex_compiled) (c_root ex_compiled) inst_bad_deep.
 Proof.
-  destruct (compile_root (ex_schema d7_url)) as [c | | |] eqn:Ec; try (vm_compute in Ec; discriminate).
-  exists c. split; [reflexivity |].
-  apply (validate_refutes (c_env c) default_fuel (c_root c) inst_bad_deep false); [| reflexivity].
-  revert Ec. vm_compute. intros Ec. inversion Ec. subst c. vm_compute. reflexivity.
+  apply (validate_refutes (c_env ex_compiled) default_fuel (c_root ex_compiled) inst_bad_deep false); [| reflexivity].
+  vm_compute. reflexivity.
 Qed.
+
+(* too little fuel gives no verdict (the instance nests one $ref "#" inside another) *)
+Example ex_fuel_too_small :
+  validate (c_env ex_compiled) 1 (c_root ex_compiled) inst_ok = None /\
+  validate (c_env ex_compiled) 2 (c_root ex_compiled) inst_ok = Some true.
+Proof. split; vm_compute; reflexivity. Qed.
 
 (* removing "$metadata" changes nothing (instance of unknown_member_irrelevant) *)
 Example ex_metadata_ignored :
@@ -82,16 +91,16 @@ Proof.
 Qed.
 
 (* search semantics of pattern *)
+Definition ex_pat : pat :=
+  match parse_pattern "b+c" with Some p => p | None => Pat false REmpty false end.
+Example ex_pattern_parses : parse_pattern "b+c" = Some ex_pat.
+Proof. vm_compute. reflexivity. Qed.
 Example ex_pattern_search :
-  match parse_pattern "b+c" with
-  | Some p => PatMatches p (code_points "aabbcd") /\ ~ PatMatches p (code_points "acb")
-  | None => False
-  end.
+  PatMatches ex_pat (code_points "aabbcd") /\ ~ PatMatches ex_pat (code_points "acb").
 Proof.
-  destruct (parse_pattern "b+c") as [p |] eqn:Ep; [| vm_compute in Ep; discriminate].
   split.
-  - apply pat_matchb_spec. revert Ep. vm_compute. intros Ep. inversion Ep. reflexivity.
-  - intros H. apply pat_matchb_spec in H. revert Ep H. vm_compute. intros Ep. inversion Ep. discriminate.
+  - apply pat_matchb_spec. vm_compute. reflexivity.
+  - intros H. apply pat_matchb_spec in H. vm_compute in H. discriminate.
 Qed.
 
 (* JSON equality: 1.0 = 1, member order is irrelevant, array order is not *)
